@@ -1,38 +1,60 @@
-import NfcVerif.Lemmas.Collect
+import NfcVerif.Lemmas.CollectOps
+import NfcVerif.Lemmas.CollectPdu
 /-!
 # C10 - Nothing sent on an LLCP link exceeds the peer's announced MIU
 
-Model: `Model/Collect.lean` (collect / dequeue / sendack of llc.py and tco.py at the level of
-PDU sizes).  `EntsOk` says: no raw access point socket (excluded by the property), queued PDUs
-have a header of at most 3 octets, PDUs in `send_list` / `dmpdu` are DM PDUs (3 octets).
+Model: `Model/Collect.lean` (collect / dequeue / sendack / encrypt of llc.py and tco.py at the level of
+PDU sizes, for every cipher `sec` that appends `icv_size` octets) and `Model/CollectOps.lean` (the socket
+operations that fill the queues).  `EntsOk` says: no raw access point socket (excluded by the property),
+queued PDUs have a header of at most 3 octets, PDUs in `send_list` / `dmpdu` are DM PDUs (3 octets).
 -/
 namespace NfcVerif.C10
 open NfcVerif NfcVerif.Collect
 
 /-- **Frame bound.** For every table of service access points with any queue contents (service
 discovery answers and requests, DM PDUs, connection-less and connection-mode sockets with any
-busy / acknowledgement state), every remote Link MIU (>= 3, in fact >= 128), any ICV size and
-aggregation on or off: the frame returned by `collect()` has an information field of at most
-the MIU. -/
-theorem collect_frame_bound (es : List Ent) (M icv : Nat) (agf : Bool) (hes : EntsOk es) (hM : 3 ≤ M)
-    (f : Frame) (es' : List Ent) (h : collect es M icv agf = (some f, es')) : f.info ≤ M :=
-  collect_bound es M icv agf hes hM f es' h
+busy / acknowledgement state), every remote Link MIU (>= 3, in fact >= 128), secure data transfer off
+or on with ANY ICV size, aggregation on or off: the frame returned by `collect()` has an information
+field of at most the MIU; the one frame that carries more is a single (not aggregated) encrypted
+UI / I PDU, by exactly its ICV (`Frame.slack`; llc.py dequeues the first PDU with `icv_size=0` on purpose). -/
+theorem collect_frame_bound (es : List Ent) (M : Nat) (sec : Option Nat) (agf : Bool) (hes : EntsOk es) (hM : 3 ≤ M)
+    (f : Frame) (es' : List Ent) (h : collect es M sec agf = (some f, es')) : f.info ≤ M + f.slack sec :=
+  (collect_bound es M sec agf hes hM f es' h).2
 
-/-- the first PDU of a frame fits the Link MIU -/
+/-- without secure data transfer no frame exceeds the MIU -/
+theorem collect_frame_bound_nosec (es : List Ent) (M : Nat) (agf : Bool) (hes : EntsOk es) (hM : 3 ≤ M)
+    (f : Frame) (es' : List Ent) (h : collect es M none agf = (some f, es')) : f.info ≤ M := by
+  have := collect_frame_bound es M none agf hes hM f es' h
+  cases f <;> simp [Frame.slack, icvOf] at this <;> exact this
+
+/-- an aggregate never exceeds the MIU, whatever the ICV size: the ICV of every aggregated UI / I PDU is
+inside the budget -/
+theorem collect_agf_bound (es : List Ent) (M : Nat) (sec : Option Nat) (agf : Bool) (hes : EntsOk es) (hM : 3 ≤ M)
+    (subs : List QPdu) (es' : List Ent) (h : collect es M sec agf = (some (.agf subs), es')) :
+    agfLen subs - 2 ≤ M := by
+  have := collect_frame_bound es M sec agf hes hM _ es' h
+  simpa [Frame.slack, Frame.info] using this
+
+/-- the first PDU of a frame fits the Link MIU (before `encrypt()`) -/
 theorem collect_first_pdu_bound (es : List Ent) (M : Nat) (hes : EntsOk es) (hM : 3 ≤ M) (p : QPdu)
-    (h : (firstDequeue (M : Int) (rawFirst es) es).1 = some p) : p.info ≤ M :=
-  fit_info ((firstDequeue_spec (M : Int) (by omega) (rawFirst es) es hes).2 p h) hM
+    (h : (firstDequeue (M : Int) (rawFirst es) es).1 = some p) : p.info ≤ M := by
+  have h1 : p.info ≤ M + (Frame.single p).slack none :=
+    first_info none ((firstDequeue_spec (M : Int) (by omega) (rawFirst es) es hes).2 p h) hM
+  simp only [Frame.slack, icvOf] at h1
+  split at h1 <;> omega
 
 /-- whatever the aggregation loops and the voluntary acknowledgements append, the aggregate's
 information field stays within the MIU (or nothing was appended) -/
-theorem aggregate_bound (es : List Ent) (M icv : Nat) (p : QPdu) (hes : EntsOk es) (hp : p.info ≤ M)
-    (f : Frame) (es' : List Ent) (h : aggregate es M icv p = (some f, es')) : f.info ≤ M :=
-  aggregate_spec es M icv p hes hp f es' h
+theorem aggregate_bound (es : List Ent) (M : Nat) (sec : Option Nat) (p : QPdu) (hes : EntsOk es)
+    (f : Frame) (es' : List Ent) (h : aggregate es M sec p = (some f, es')) :
+    f = .single p ∨ ∃ subs, f = .agf subs ∧ agfLen subs - 2 ≤ M :=
+  (aggregate_spec es M sec p hes f es' h).2
 
 /-- batching of service discovery answers and requests respects the size it is given -/
 theorem sd_dequeue_bound (s s' : Sd) (m : Int) (p : QPdu) (hs : ∀ p ∈ s.dmpdu, Small p) (hm : 0 ≤ m)
-    (h : s.dequeue m = (some p, s')) : Fit p m :=
-  (sd_dequeue hs hm h).2 p rfl
+    (h : s.dequeue m = (some p, s')) : Fit p m := by
+  have := (sd_dequeue 0 hs hm h).2 p rfl
+  exact fitE_encrypt (sec := none) this
 
 /-- a UI / I payload accepted by `sendto()` / `send()` is within the MIU it was checked against,
 and the connection MIU used for I PDUs never exceeds the Link MIU -/
@@ -45,15 +67,126 @@ theorem ui_i_payload_bound (n miu peerMiu linkMiu : Nat) :
   · split <;> simp
   · split <;> omega
 
+/-- **`collect()` neither invents nor alters PDUs** (raw access point sockets included): for predicates
+`P`, `Q` with `P` on everything queued and on the generated RR / RNR / SNL PDUs, `Q` on RR / RNR, and
+`encrypt()` taking `P` to `Q` - every PDU of the returned frame satisfies `Q`, everything left in the
+queues satisfies `P`; a predicate `R` on the connection state variables that survives the updates of
+`dequeue()` / `sendack()` is kept. -/
+theorem collect_preserves {P Q : QPdu → Prop} {R : Dlc → Prop} {sec : Option Nat} (g : Gen P Q R sec)
+    (es : List Ent) (M : Nat) (agf : Bool) (hes : EntsAll P R es) (fo : Option Frame) (es' : List Ent)
+    (h : collect es M sec agf = (fo, es')) : EntsAll P R es' ∧ ∀ f, fo = some f → ∀ p ∈ f.pdus, Q p :=
+  collect_all g es M agf hes fo es' h
+
+/-- every UI / I PDU of a transmitted frame was encrypted exactly once (its ICV is `icv_size`, its payload
+is the queued payload, within the MIU it was accepted under), every other PDU not at all -/
+theorem collect_encrypts_once (es : List Ent) (M : Nat) (sec : Option Nat) (agf : Bool)
+    (hes : EntsAll (Plain M) (DlcOk M) es) (f : Frame) (es' : List Ent) (h : collect es M sec agf = (some f, es')) :
+    ∀ p ∈ f.pdus, (p.isData → p.icv = icvOf sec ∧ p.payload ≤ p.lim ∧ p.lim ≤ M) ∧ (¬ p.isData → p.icv = 0) :=
+  fun p hp => ((collect_all (gen_plain_sent M sec) es M agf hes _ es' h).2 f rfl p hp).2
+
+/-- **Histories.** Whatever sequence of socket operations fills the queues - `sendto()` on logical data
+link sockets, `send()` on data link connections (with the EMSGSIZE / ENOTCONN / EWOULDBLOCK refusals),
+`connect()` / `accept()` with any announced connection MIU, pending service discovery requests and
+answers, DM PDUs, arbitrary changes of the receive / send state variables by the peer - interleaved with
+`collect()` in any way, starting from any state that satisfies the invariant (e.g. empty queues): every
+frame transmitted during the history is within the Link MIU (`FrameOk`: the bound of
+`collect_frame_bound`, every UI / I PDU with exactly one ICV and a payload within the connection / link
+MIU it was accepted under, which is within the Link MIU), and the invariant holds afterwards. -/
+theorem history_frames_ok (M : Nat) (sec : Option Nat) (agf : Bool) (hM : 3 ≤ M) (ops : List Op) (es : List Ent)
+    (h : HistOk M es) :
+    HistOk M (run M sec agf ops es).2 ∧ ∀ f ∈ frames (run M sec agf ops es).1, FrameOk M sec f :=
+  run_ok M sec agf hM ops es h
+
+/-- `llc.sendto()` on a logical data link socket accepts exactly the messages within the Link MIU -/
+theorem sendto_ok_iff (M : Nat) (sec : Option Nat) (agf : Bool) (es : List Ent) (a j n id sm : Nat) (q : List QPdu)
+    (hg : getSock es a j = some (.ldl sm q)) :
+    ((step M sec agf es (.sendto a j n id)).2 = .ok ↔ n ≤ M) ∧
+    (n > M → (step M sec agf es (.sendto a j n id)).2 = .exc (.llcp 90)) := by
+  simp only [step, hg]
+  constructor
+  · constructor
+    · intro h; split at h
+      · cases h
+      · omega
+    · intro h; rw [if_neg (by omega)]
+  · intro h; rw [if_pos h]
+
+/-- `llc.send()` on a data link connection accepts a message only if the connection is established and
+the message is within the connection MIU; a longer message gets EMSGSIZE -/
+theorem send_ok_only_if (M : Nat) (sec : Option Nat) (agf : Bool) (es : List Ent) (a j n id : Nat) (d : Dlc)
+    (q : List QPdu) (hg : getSock es a j = some (.dlc d q)) :
+    ((step M sec agf es (.send a j n id)).2 = .ok → d.state = .established ∧ n ≤ d.sendMiu ∧ sendSlots d ≠ 0) ∧
+    (d.state = .established → n > d.sendMiu → (step M sec agf es (.send a j n id)).2 = .exc (.llcp 90)) := by
+  simp only [step, hg]
+  constructor
+  · intro h
+    split at h
+    · cases h
+    · rename_i hs
+      split at h
+      · cases h
+      · split at h
+        · cases h
+        · exact ⟨by cases hd : d.state <;> simp_all, by omega, by assumption⟩
+  · intro h1 h2
+    rw [if_neg (by simp [h1]), if_pos h2]
+
+/-- the `while miu_size >= 0` loop of `collect()` terminates: the bound on the number of passes that the
+model uses (`sendMiu + 1`) is never reached - any larger bound gives the same result -/
+theorem collect_aggregation_terminates (M : Nat) (sec : Option Nat) (es : List Ent) (subs : List QPdu) (k : Nat) :
+    aggLoop M sec (M + 1 + k) es subs = aggLoop M sec (M + 1) es subs :=
+  aggLoop_fuel_enough M sec es subs k
+
+/-- **Aggregation is transparent** (byte level, model `Model/Pdu.lean` of property C11): an aggregate of
+valid PDUs within a MIU encodes to exactly the `agfLen` octets the collect model budgets with - so
+`collect_frame_bound` speaks about the transmitted octets - and the receiver decodes exactly the collected
+PDUs, in the same order (`dispatch()` hands `for p in rcvd_pdu` to the service access points). -/
+theorem aggregation_transparent (items : List Pdu.SPdu) (M : Nat) (hv : ∀ p ∈ items, Pdu.ValidS p)
+    (hM : (Frame.agf (items.map sizeOf)).info ≤ M) (h16 : M ≤ 65535) :
+    ∃ b, Pdu.Impl.encode (.agf 0 0 items) = .ok b ∧ b.length - 2 = (Frame.agf (items.map sizeOf)).info ∧
+      Pdu.Impl.decode b = .ok (.agf 0 0 items) := by
+  obtain ⟨b, he, hl, hd⟩ := agf_roundtrip items M hv hM h16
+  exact ⟨b, he, by rw [hl]; rfl, hd⟩
+
+/-- `len()` of the byte-level aggregate is the `agfLen` of the size-level model -/
+theorem agf_size_bridge (items : List Pdu.SPdu) : Pdu.Impl.len (.agf 0 0 items) = agfLen (items.map sizeOf) :=
+  agfLen_sizeOf items
+
 /-! Non-vacuity: concrete states, including the two shapes that overshot before the repairs -/
+def dlc0 : Dlc := ⟨.established, false, false, 1, 1, 0, 1, 128, 1, 0, 0⟩
+/-- a connection with nothing to acknowledge -/
+def dlc1 : Dlc := ⟨.established, false, false, 1, 0, 0, 0, 128, 1, 0, 0⟩
 /-- 40 pending SDRES at MIU 130 (finding F7): now 32 answers = 128 octets -/
-example : (collect [.sd ⟨List.replicate 40 0, [], []⟩] 130 0 true).1.map Frame.info = some 128 := by decide
+example : (collect [.sd ⟨List.replicate 40 0, [], []⟩] 130 none true).1.map Frame.info = some 128 := by decide
 /-- UI with 130 octets + pending DM at MIU 135 (finding F34): the DM now waits for the next frame -/
-example : (collect [.sap ⟨[.ldl [⟨.ui, 2, 132, 1⟩]], [⟨.dm, 2, 3, 2⟩]⟩] 135 0 true).1.map Frame.info = some 130 := by decide
-example : EntsOk [.sap ⟨[.ldl [⟨.ui, 2, 132, 1⟩]], [⟨.dm, 2, 3, 2⟩]⟩, .sd ⟨[1, 2], [(3, 20)], []⟩] := by
-  intro e he; simp at he; rcases he with rfl | rfl <;> simp [EntOk, SockOk, POk, Small]
-example : (collect [.sap ⟨[.ldl [⟨.ui, 2, 50, 1⟩, ⟨.ui, 2, 60, 2⟩]], []⟩,
-                    .sap ⟨[.dlc true false false 1 1 0 1 [⟨.i, 3, 40, 3⟩]], [⟨.dm, 2, 3, 9⟩]⟩] 128 0 true).1.map Frame.info
+example : (collect [.sap ⟨[.ldl 135 [⟨.ui, 2, 132, 1, 0, 135⟩]], [⟨.dm, 2, 3, 2, 0, 0⟩]⟩] 135 none true).1.map Frame.info
+    = some 130 := by decide
+example : EntsOk [.sap ⟨[.ldl 135 [⟨.ui, 2, 132, 1, 0, 135⟩]], [⟨.dm, 2, 3, 2, 0, 0⟩]⟩, .sd ⟨[1, 2], [(3, 20)], []⟩] := by
+  intro e he; simp at he; rcases he with rfl | rfl <;> simp [EntOk, SockOk, POk, Small, QPdu.isData]
+example : (collect [.sap ⟨[.ldl 128 [⟨.ui, 2, 50, 1, 0, 128⟩, ⟨.ui, 2, 60, 2, 0, 128⟩]], []⟩,
+                    .sap ⟨[.dlc dlc0 [⟨.i, 3, 40, 3, 0, 128⟩]], [⟨.dm, 2, 3, 9, 0, 0⟩]⟩] 128 none true).1.map Frame.info
     = some 124 := by decide
+/-- secure data transfer (ICV 4), MIU 128: a 10 octet UI, then an I PDU with 101 octets (the largest that
+still fits: 2 + (2+2+10+4) + (2+3+101+4) = 130 = 128 + 2) is aggregated, ... -/
+example : (collect [.sap ⟨[.ldl 128 [⟨.ui, 2, 12, 1, 0, 128⟩]], []⟩,
+                    .sap ⟨[.dlc dlc1 [⟨.i, 3, 104, 3, 0, 128⟩]], []⟩] 128 (some 4) true).1.map Frame.info
+    = some 128 := by decide
+/-- ... one octet more is left for the next frame (the mutation that forgets `icv_size` in
+`DataLinkConnection.dequeue` would aggregate it: 129 > 128) -/
+example : (collect [.sap ⟨[.ldl 128 [⟨.ui, 2, 12, 1, 0, 128⟩]], []⟩,
+                    .sap ⟨[.dlc dlc1 [⟨.i, 3, 105, 3, 0, 128⟩]], []⟩] 128 (some 4) true).1.map Frame.info
+    = some 14 := by decide
+/-- the slack is attained: a single encrypted UI PDU with a payload of MIU octets carries MIU + 4 -/
+example : (collect [.sap ⟨[.ldl 128 [⟨.ui, 2, 130, 1, 0, 128⟩]], []⟩] 128 (some 4) true).1.map Frame.info
+    = some 132 := by decide
+/-- a history: sendto 128 octets accepted, 129 refused (EMSGSIZE), send on the connection, collect -/
+example : (run 128 (some 4) true [.sendto 0 0 128 1, .sendto 0 0 129 2, .send 1 0 100 3, .send 1 0 129 4, .collect, .collect]
+            [.sap ⟨[.ldl 128 []], []⟩, .sap ⟨[.dlc dlc0 []], []⟩]).1.length = 6 := by decide
+example : ∃ b, Pdu.Impl.encode (.agf 0 0 [.ui 16 32 [1, 2, 3], .rr 17 33 1]) = .ok b ∧ b.length - 2 = 12 :=
+  ⟨_, rfl, rfl⟩
+example : HistOk 128 [.sap ⟨[.ldl 128 []], []⟩, .sap ⟨[.dlc dlc0 []], []⟩, .sd ⟨[], [], []⟩] := by
+  constructor
+  · intro e he; simp at he; rcases he with rfl | rfl | rfl <;> simp [EntOk, SockOk]
+  · intro e he; simp at he; rcases he with rfl | rfl | rfl <;> simp [EntAll, SockAll, DlcOk, dlc0]
 
 end NfcVerif.C10
